@@ -305,7 +305,15 @@ func parsePossibilityOperator(input *input, version *VersionRelation) error {
 	leader := input.Next() /* may be 0 */
 
 	if leader == '=' {
-		/* Great, good enough. */
+		/* Great, good enough -- unless it is the start of something like
+		 * "==", "=<" or "=>", which are not operators. */
+		switch input.Peek() {
+		case '=', '<', '>':
+			return fmt.Errorf(
+				"Unknown Operator in Possibility Version modifier: =%c",
+				input.Peek(),
+			)
+		}
 		version.Operator = "="
 		return nil
 	}
